@@ -56,7 +56,7 @@ func (w *World) TakeReference() (*Reference, error) {
 	}
 	wal0 := w.ReadWAL()
 	fast := w.fastReference(dbb0, wal0)
-	if fast != nil && !(w.refN%4 == 0) {
+	if fast != nil && !(w.refN%4 == 0) && !w.NoFastRef {
 		w.refN++
 		return fast, nil
 	}
@@ -68,7 +68,7 @@ func (w *World) TakeReference() (*Reference, error) {
 	if fast != nil && !bytes.Equal(fast.Image, slow.Image) {
 		return nil, fmt.Errorf("harness: refwal-based reference image differs from SQLite's own recovery (%d vs %d bytes)", len(fast.Image), len(slow.Image))
 	}
-	if fast != nil && (fast.V != slow.V || fast.Digest != slow.Digest || fast.SeqRoot != slow.SeqRoot || fast.Seq != slow.Seq) {
+	if fast != nil && (fast.V != slow.V || fast.Digest != slow.Digest || fast.SeqRoot != slow.SeqRoot || (fast.Seq != slow.Seq && !w.NoFastRef)) {
 		return nil, fmt.Errorf("harness: ledger-based reference (v=%d %s seqroot=%d seq=%d) differs from SQLite copy (v=%d %s seqroot=%d seq=%d)",
 			fast.V, fast.Digest, fast.SeqRoot, fast.Seq, slow.V, slow.Digest, slow.SeqRoot, slow.Seq)
 	}
